@@ -8,7 +8,7 @@ for d in sorted(glob.glob(os.path.join(HERE, "seeded", "C*-m*"))):
     am = json.load(open(os.path.join(d, "agent_meta.json"))) if os.path.exists(os.path.join(d, "agent_meta.json")) else {}
     conf = open(os.path.join(d, "confirm.txt")).read() if os.path.exists(os.path.join(d, "confirm.txt")) else ""
     res = {}
-    for f in ("quick_result.json", "inrepo_result.json", "cross_result.json"):
+    for f in ("quick_result.json", "inrepo_result.json", "cross_result.json", "thorough_result.json"):
         p = os.path.join(d, f)
         if os.path.exists(p):
             res[f[:-5]] = json.load(open(p))
